@@ -277,6 +277,12 @@ def genParent (g : Graph) (vertex : Nat) (skipchecks : Bool) : Option (Option Na
   else
     some ((pyGet (Graph.predList g) vertex))
 
+def genIsSymmetric (array : RawMat) : Bool :=
+  if (RawMat.isSparse array) then
+    (((Graph.asymCount (RawMat.graph array)) == (0)))
+  else
+    (((Graph.asymCount (RawMat.graph array)) == (0)))
+
 def genGraphInit (directed : Bool) (m : RawMat) (copy skipchecks : Bool) : Option Graph :=
   if (m.kind == MatKind.ndarray) then
     let adjacencymatrix0 := m
@@ -287,26 +293,26 @@ def genGraphInit (directed : Bool) (m : RawMat) (copy skipchecks : Bool) : Optio
         if (((RawMat.nrows adjacencymatrix0) != (RawMat.ncols adjacencymatrix0))) then
           none
         else
-          if ((!directed) && (!(Graph.symmetricB (RawMat.graph adjacencymatrix0)))) then
+          if ((!directed) && (!(genIsSymmetric adjacencymatrix0))) then
             none
           else
             if copy then
               let selfadjacencymatrix0 := adjacencymatrix0
-              let selfadjacencymatrix1 := selfadjacencymatrix0
-              some (RawMat.graph selfadjacencymatrix1)
+              let selfadjacencymatrix1 := (RawMat.eliminateZeros selfadjacencymatrix0)
+              RawMat.graphOf selfadjacencymatrix1
             else
               let selfadjacencymatrix0 := adjacencymatrix0
-              let selfadjacencymatrix1 := selfadjacencymatrix0
-              some (RawMat.graph selfadjacencymatrix1)
+              let selfadjacencymatrix1 := (RawMat.eliminateZeros selfadjacencymatrix0)
+              RawMat.graphOf selfadjacencymatrix1
     else
       if copy then
         let selfadjacencymatrix0 := adjacencymatrix0
-        let selfadjacencymatrix1 := selfadjacencymatrix0
-        some (RawMat.graph selfadjacencymatrix1)
+        let selfadjacencymatrix1 := (RawMat.eliminateZeros selfadjacencymatrix0)
+        RawMat.graphOf selfadjacencymatrix1
       else
         let selfadjacencymatrix0 := adjacencymatrix0
-        let selfadjacencymatrix1 := selfadjacencymatrix0
-        some (RawMat.graph selfadjacencymatrix1)
+        let selfadjacencymatrix1 := (RawMat.eliminateZeros selfadjacencymatrix0)
+        RawMat.graphOf selfadjacencymatrix1
   else
     if (!((m.kind == MatKind.ndarray) || (m.kind == MatKind.csr))) then
       none
@@ -318,26 +324,26 @@ def genGraphInit (directed : Bool) (m : RawMat) (copy skipchecks : Bool) : Optio
           if (((RawMat.nrows m) != (RawMat.ncols m))) then
             none
           else
-            if ((!directed) && (!(Graph.symmetricB (RawMat.graph m)))) then
+            if ((!directed) && (!(genIsSymmetric m))) then
               none
             else
               if copy then
                 let selfadjacencymatrix0 := m
-                let selfadjacencymatrix1 := selfadjacencymatrix0
-                some (RawMat.graph selfadjacencymatrix1)
+                let selfadjacencymatrix1 := (RawMat.eliminateZeros selfadjacencymatrix0)
+                RawMat.graphOf selfadjacencymatrix1
               else
                 let selfadjacencymatrix0 := m
-                let selfadjacencymatrix1 := selfadjacencymatrix0
-                some (RawMat.graph selfadjacencymatrix1)
+                let selfadjacencymatrix1 := (RawMat.eliminateZeros selfadjacencymatrix0)
+                RawMat.graphOf selfadjacencymatrix1
       else
         if copy then
           let selfadjacencymatrix0 := m
-          let selfadjacencymatrix1 := selfadjacencymatrix0
-          some (RawMat.graph selfadjacencymatrix1)
+          let selfadjacencymatrix1 := (RawMat.eliminateZeros selfadjacencymatrix0)
+          RawMat.graphOf selfadjacencymatrix1
         else
           let selfadjacencymatrix0 := m
-          let selfadjacencymatrix1 := selfadjacencymatrix0
-          some (RawMat.graph selfadjacencymatrix1)
+          let selfadjacencymatrix1 := (RawMat.eliminateZeros selfadjacencymatrix0)
+          RawMat.graphOf selfadjacencymatrix1
 
 def genUndirectedGraphInit (m : RawMat) (copy skipchecks : Bool) : Option (Bool × Graph) :=
   let directedattr0 := false
